@@ -80,3 +80,94 @@ Example C13_example :
   ex_get (ex_raw None (Some true) None) abc = Ok (Found (Some ["002"%byte])) /\
   ex_get (ex_raw None None (Some true)) abc = Ok (Found (Some ["002"%byte])).
 Proof. vm_compute. repeat split. Qed.
+
+(* ------------------------------------------------------------------------------------
+   C13 THROUGH THE BITMAPS (message level, L3).  Both tries of the pair are encoded to their
+   protobuf messages as data ([encode_trie]: 64-bit words with rank/select indexes, packed
+   label bitmaps, short-node table, VLenArrays of prefixes, tails and values; [init_vars] is
+   initVars) and GetID / Get are computed from those messages the way the Go code does
+   (Msg.mgetid / Msg.mget: getNode, getLeftChildID, getLeafPrefix, VLenArray.get).  The
+   fuels bound the number of nodes visited; any value from the height of the trie on will
+   do.  Proofs in theories/MonoMsgProofs.v (on top of MsgProofs.v and the L3 refinement). *)
+From Slim Require Import BitmapRank BitmapRank2 Bits Msg MsgProofs MonoMsgProofs GetIntMsgProofs.
+
+(* every built trie has a message and initVars accepts it: the hypotheses below are satisfiable *)
+Theorem C13_message_exists :
+  forall (r : raw_opt) (keys : list key) (vals : option (list (list byte))) (T : trie),
+    build (normalize r) keys vals = Ok T ->
+    exists m vs, encode_trie T = Val m /\ init_vars m = Val vs.
+Proof. intros r keys vals T. exact (built_message_exists (normalize r) keys vals T). Qed.
+Print Assumptions C13_message_exists.
+
+(* found (computed from the message) in the mode that stores more => found with the same
+   value and the same node id (computed from the other message) in the mode that stores less *)
+Theorem C13_message_level :
+  forall (r1 r2 : raw_opt) (keys : list key) (vals : option (list (list byte))) (T1 T2 : trie)
+         (m1 : msg) (vs1 : vars) (m2 : msg) (vs2 : vars) (fuel1 fuel2 : nat) (q : key) (v : option (list byte)),
+    o_dedup (normalize r1) = o_dedup (normalize r2) ->
+    (o_inner (normalize r1) = true -> o_inner (normalize r2) = true) ->
+    (o_leaf (normalize r1) = true -> o_leaf (normalize r2) = true) ->
+    build (normalize r1) keys vals = Ok T1 -> build (normalize r2) keys vals = Ok T2 ->
+    encode_trie T1 = Val m1 -> init_vars m1 = Val vs1 -> trie_height T1 <= fuel1 ->
+    encode_trie T2 = Val m2 -> init_vars m2 = Val vs2 -> trie_height T2 <= fuel2 ->
+    mget (S fuel2) m2 vs2 q = Ok (Found v) ->
+    mget (S fuel1) m1 vs1 q = Ok (Found v) /\ mgetid (S fuel1) m1 vs1 q = mgetid (S fuel2) m2 vs2 q.
+Proof.
+  intros r1 r2 keys vals T1 T2 m1 vs1 m2 vs2 fuel1 fuel2 q v Hd Hi Hl.
+  exact (mrich_found_poorer_found (normalize r1) (normalize r2) keys vals T1 T2 m1 vs1 m2 vs2 fuel1 fuel2 q v Hd (conj Hi Hl)).
+Qed.
+Print Assumptions C13_message_level.
+
+(* a mode that stores both prefixes reports found (from the message) only for retained keys *)
+Theorem C13_message_level_complete :
+  forall (r : raw_opt) (keys : list key) (vals : option (list (list byte))) (T : trie)
+         (m : msg) (vs : vars) (fuel : nat) (q : key) (v : option (list byte)),
+    build (normalize r) keys vals = Ok T ->
+    o_inner (normalize r) = true -> o_leaf (normalize r) = true ->
+    encode_trie T = Val m -> init_vars m = Val vs -> trie_height T <= fuel ->
+    mget (S fuel) m vs q = Ok (Found v) ->
+    exists i, nth_error keys i = Some q /\ retained (normalize r) keys vals i = true.
+Proof. intros r keys vals T m vs fuel q v. exact (mcomplete_found_retained (normalize r) keys vals T m vs fuel q v). Qed.
+Print Assumptions C13_message_level_complete.
+
+(* every two modes with equal DedupValue give the same answer, computed from their two
+   messages, for a retained key *)
+Theorem C13_message_level_retained :
+  forall (r1 r2 : raw_opt) (keys : list key) (vals : option (list (list byte))) (T1 T2 : trie)
+         (m1 : msg) (vs1 : vars) (m2 : msg) (vs2 : vars) (fuel1 fuel2 : nat) (i : nat) (k : key),
+    o_dedup (normalize r1) = o_dedup (normalize r2) ->
+    build (normalize r1) keys vals = Ok T1 -> build (normalize r2) keys vals = Ok T2 ->
+    encode_trie T1 = Val m1 -> init_vars m1 = Val vs1 -> trie_height T1 <= fuel1 ->
+    encode_trie T2 = Val m2 -> init_vars m2 = Val vs2 -> trie_height T2 <= fuel2 ->
+    nth_error keys i = Some k -> retained (normalize r1) keys vals i = true ->
+    exists v id, mget (S fuel1) m1 vs1 k = Ok (Found v) /\ mget (S fuel2) m2 vs2 k = Ok (Found v) /\
+                 mgetid (S fuel1) m1 vs1 k = Ok (Some id) /\ mgetid (S fuel2) m2 vs2 k = Ok (Some id) /\
+                 val_bytes v = supplied vals i /\ (vals = None -> v = None).
+Proof.
+  intros r1 r2 keys vals T1 T2 m1 vs1 m2 vs2 fuel1 fuel2 i k.
+  exact (mretained_key_same_answer (normalize r1) (normalize r2) keys vals T1 T2 m1 vs1 m2 vs2 fuel1 fuel2 i k).
+Qed.
+Print Assumptions C13_message_level_retained.
+
+(* non-vacuity: the example above with Get computed from the message of each mode *)
+Definition ex_mget (r : raw_opt) (q : key) : res found :=
+  match build (normalize r) ex_keys ex_vals with
+  | Ok T => match encode_trie T with
+            | Val m => match init_vars m with
+                       | Val vs => if Nat.leb (trie_height T) 4 then mget 5 m vs q else Err EFuel
+                       | Panic => Err (EPanic 0)
+                       end
+            | Panic => Err (EPanic 0)
+            end
+  | Err e => Err e
+  end.
+Example C13_message_example :
+  ex_mget (ex_raw None None None) am = Ok (Found (Some ["002"%byte])) /\
+  ex_mget (ex_raw (Some true) None None) am = Ok (Found (Some ["002"%byte])) /\
+  ex_mget (ex_raw None (Some true) None) am = Ok NotFound /\
+  ex_mget (ex_raw None None (Some true)) am = Ok NotFound /\
+  ex_mget (ex_raw None None None) abc = Ok (Found (Some ["002"%byte])) /\
+  ex_mget (ex_raw (Some true) None None) abc = Ok (Found (Some ["002"%byte])) /\
+  ex_mget (ex_raw None (Some true) None) abc = Ok (Found (Some ["002"%byte])) /\
+  ex_mget (ex_raw None None (Some true)) abc = Ok (Found (Some ["002"%byte])).
+Proof. vm_compute. repeat split. Qed.
